@@ -383,7 +383,42 @@ def rule_pure_queries(repo, rep):
   rep.floor('query methods checked for purity', n, 100)
 
 
+def rule_no_hyper_writes(repo, rep, only=None):
+  R = 'R-EFFECT:hyper-parameters-not-reassigned'
+  rep.rule(R, 'no method other than __init__ (fit, query methods and '
+           'everything they reach) assigns an attribute that is a '
+           'constructor parameter: hyper-parameters stay what the user set '
+           '(get_params / clone / refit see the same values)')
+  n = 0
+  for c in repo.estimators():
+    if only is not None and c.name not in only:
+      continue
+    params = set(repo.init_params(c))
+    for name, f in methods_of(repo, c, ['fit', 'calibrate_threshold',
+                                        'set_threshold'] + QUERY_METHODS):
+      dom = TagDomain()
+      eng = Engine(repo, dom, self_cls=c)
+      flow = eng.run(f)
+      n += 1
+      stores = set()
+      for (v, st, node) in flow.returns + [(None, s_, n_) for (nm, s_, n_)
+                                           in flow.raises]:
+        stores |= set(e[2] for e in dom.may(st)
+                      if e[0] == 'store' and e[1] == 'self')
+      bad = sorted(stores & params)
+      key = '%s.%s' % (c.name, name)
+      if bad:
+        rep.refuted(R, '%s:%s' % (key, ','.join(bad)), site(f),
+                    '%s assigns the hyper-parameter attribute(s) self.%s'
+                    % (key, ', self.'.join(bad)))
+      else:
+        rep.derived(R, key, site(f))
+  rep.floor('methods checked for hyper-parameter writes', n,
+            100 if only is None else 2)
+
+
 def check(repo, rep, tier):
+  rule_no_hyper_writes(repo, rep)
   rule_rng(repo, rep)
   rule_writes(repo, rep)
   rule_history(repo, rep)
